@@ -817,7 +817,7 @@ class Sched:
         if not (mi and mm) or int(mi.group(1)) <= 0 or int(mm.group(1)) <= 0:
             return False
         a, b = int(mi.group(1)), int(mm.group(1))
-        tol = (d["recv"] - d["send"]) / 2.0 + self.hw.get((db, c.key), SLOT / 2.0) + 1.5
+        tol = (d["recv"] - d["send"]) / 2.0 + self.hw.get((db, c.key), SLOT / 2.0) + 2.5   # two midpoints rounded to whole ms (0.5 each) + as_millis floor (1) + slack
         if c.name == "PTTL":
             return abs(a - b) <= tol
         # TTL: the remaining milliseconds of the model, then the reply arithmetic at both ends of the tolerance
@@ -1093,7 +1093,7 @@ def main(tier, seed):
                 "Every request bracketed with the monotonic clock, model time = bracket midpoint, out-of-window items discarded and counted. "
                 "distinct = (part, command or key, type, phase, outcome class) tuples" % len(matrix_commands(b"x")))
     rep.assumptions = [
-        "time is real: deadlines are compared through the brackets of the requests (+-1.5 ms); an error of a few milliseconds in a comparison is invisible dynamically and is covered only by the theorems about the operators (Gen.expiredIsStrict, Gen.ttlComparesStrict)",
+        "time is real: deadlines are compared through the brackets of the requests (+-2.5 ms); an error of a few milliseconds in a comparison is invisible dynamically and is covered only by the theorems about the operators (Gen.expiredIsStrict, Gen.ttlComparesStrict)",
         "the model identifies the two clock readings a storage call may take (expire / set_string_nx_ex read Instant::now() once for the stored deadline and once for the index: the index entry is later by nanoseconds)",
         "values are abstracted to (type, size-or-number); value semantics are C01/C03/C04/C15",
         "the sweeper is modelled per database as one shard; the gate scenarios use keys of one shard, where this is exact",
@@ -1109,7 +1109,7 @@ def main(tier, seed):
     fs = findings()
     v = Verdict(rep, fs)
     rep.extra["switches"] = {"sweeperRechecks": f["sweeperRechecks"], "centralLazy": f["centralLazy"], "setValueDropsStale": d["setValueDropsStale"],
-                             "setNxDropsStale": d["setNxDropsStale"], "renameMovesIndex": d["renameMovesIndex"], "emptiedDropsIndex": d["emptiedDropsIndex"],
+                             "setNxDropsStale": d["setNxDropsStale"], "renameMovesIndex": d["renameMovesIndex"], "emptiedDropsIndex": d["emptiedDropsIndex"], "ttlLastMsFixed": f.get("ttlLastMsFixed"),
                              "lazyChecked": d["lazyChecked"], "notLazy": d["notLazy"]}
     timing = {"proof_and_build": round(time.time() - rep.t0, 1)}
     sess = Session(rep, cfg_line(f, d))
@@ -1180,7 +1180,7 @@ def main(tier, seed):
             hits, spanned = probe_last_millisecond(sess)
             rep.extra["last_millisecond_probe"] = {"pairs_TTL_-2_then_GET_value": hits, "deadline_spanned": spanned}
             if hits:
-                fnd = match_finding(fs, "ttl:last-millisecond")
+                fnd = None if f.get("ttlLastMsFixed") else match_finding(fs, "ttl:last-millisecond")
                 if fnd:
                     v.known.setdefault(fnd["id"], fnd)
                 else:
